@@ -1,5 +1,5 @@
 \* design level, thorough: n <= 40, MinBatch scaled to 8, 4 and 1; fft::concurrent::permute and the clone_and_shift / shift-by-series batches (C12)
 SPECIFICATION Spec
-CONSTANTS MaxN = 40  MinBatches = {1, 4, 8}  Ops = {"perm", "pow"}  GuardEmpty = TRUE  MaxStates = 300000
+CONSTANTS MaxN = 40  MinBatches = {1, 4, 8}  Ops = {"perm", "pow"}  GuardEmpty = TRUE  MaxStates = 40000
 INVARIANT Partition NoRace InBounds Final
 CHECK_DEADLOCK FALSE
